@@ -106,6 +106,54 @@ Proof.
   specialize (IH st' HP'). destruct (run code f st'). simpl in *. exact IH.
 Qed.
 
+(* ------------------------------------------------------------------ step = statement + trap_error *)
+
+Definition resolve (code : list stmt) (i : nat) (r : pres) : sres :=
+  match r with
+  | PGo st' out => Go st' out
+  | PHalt o => Halt o
+  | PRaise st' c epos => trap code st' i c epos
+  end.
+
+Lemma step_resolve code st : step code st = resolve code (pc st) (pstep code st).
+Proof. reflexivity. Qed.
+
+Lemma resolve_with_val code st i epos r k k' :
+  (forall z, resolve code i (k z) = k' z) ->
+  resolve code i (pwith_val st epos r k) = with_val code st i epos r k'.
+Proof. intros H. destruct r; simpl; auto. Qed.
+
+Lemma resolve_with_int code st i r k k' :
+  (forall z, resolve code i (k z) = k' z) ->
+  resolve code i (pwith_int st i r k) = with_int code st i r k'.
+Proof.
+  intros H. unfold pwith_int, with_int. apply resolve_with_val. intros z.
+  destruct (in16 z); [apply H | reflexivity].
+Qed.
+
+Lemma resolve_jump code st i n k k' :
+  (forall j, resolve code i (k j) = k' j) ->
+  resolve code i (pjump code st i n k) = jump code st i n k'.
+Proof. intros H. unfold pjump, jump. destruct (find_line code n); [apply H | reflexivity]. Qed.
+
+Lemma resolve_check_while code st i w :
+  resolve code i (pcheck_while code st w) = check_while code st i w.
+Proof.
+  unfold pcheck_while, check_while. destruct (nth_error code w) as [[]|]; try reflexivity.
+  apply resolve_with_val. intros z. destruct (z =? 0); [|reflexivity].
+  destruct (whiles st) as [|[? ?] ?]; reflexivity.
+Qed.
+
+Ltac resolve_tac :=
+  repeat first
+    [ reflexivity
+    | apply resolve_check_while
+    | apply resolve_with_val; intros ?
+    | apply resolve_with_int; intros ?
+    | apply resolve_jump; intros ?
+    | match goal with |- resolve _ _ (match ?x with _ => _ end) = _ => destruct x end
+    | match goal with |- resolve _ _ (if ?x then _ else _) = _ => destruct x end ].
+
 (* ------------------------------------------------------------------ step equations *)
 
 Section StepEq.
@@ -231,7 +279,10 @@ Lemma step_at st s : nth_error code (pc st) = Some s ->
         | Some [] => Halt Unmodelled
         end
     end.
-Proof. intros H. unfold step. rewrite H. reflexivity. Qed.
+Proof.
+  intros H. rewrite step_resolve. unfold pstep. rewrite H. cbv zeta.
+  destruct s; resolve_tac.
+Qed.
 
 End StepEq.
 
